@@ -25,27 +25,27 @@ struct HasVariants<Spec, std::void_t<decltype(std::declval<Spec&>().variants(std
 template <class Spec>
 struct Checker {
   std::vector<xmc::Event> ev;
-  std::vector<uint32_t> pred; // bitmask of events that must be linearised before i
-  std::set<std::pair<uint64_t, uint32_t>> dead; // exact keys: specs use injective state encodings
+  std::vector<uint64_t> pred; // bitmask of events that must be linearised before i
+  std::set<std::pair<uint64_t, uint64_t>> dead; // exact keys: specs use injective state encodings
   int n = 0;
 
-  bool dfs(uint32_t done, const Spec& s) {
-    if (done == (n == 32 ? 0xffffffffu : ((1u << n) - 1))) return true;
-    std::pair<uint64_t, uint32_t> key(s.hash(), done);
+  bool dfs(uint64_t done, const Spec& s) {
+    if (done == ((uint64_t(1) << n) - 1)) return true;
+    std::pair<uint64_t, uint64_t> key(s.hash(), done);
     if (dead.count(key)) return false;
     for (int i = 0; i < n; i++) {
-      if (done & (1u << i)) continue;
+      if (done & (uint64_t(1) << i)) continue;
       if ((pred[i] & ~done) != 0) continue; // something that precedes i is not linearised yet
       if constexpr (HasVariants<Spec>::value) {
         int nv = s.variants(ev[i]);
         for (int v = 0; v < nv; v++) {
           Spec t = s;
-          if (t.apply(ev[i], v) && dfs(done | (1u << i), t)) return true;
+          if (t.apply(ev[i], v) && dfs(done | (uint64_t(1) << i), t)) return true;
         }
       } else {
         Spec t = s;
         if (t.apply(ev[i])) {
-          if (dfs(done | (1u << i), t)) return true;
+          if (dfs(done | (uint64_t(1) << i), t)) return true;
         }
       }
     }
@@ -59,14 +59,14 @@ struct Checker {
   // returns true if the complete history is linearizable w.r.t. `init`
   bool check(const Spec& init) {
     n = xmc::history_size();
-    if (n > 30) xmc::fail("ENGINE", "history too long for the linearizability checker (%d)", n);
+    if (n > 60) xmc::fail("ENGINE", "history too long for the linearizability checker (%d)", n);
     ev.clear();
     for (int i = 0; i < n; i++) ev.push_back(xmc::history_at(i));
     pred.assign(n, 0);
     for (int i = 0; i < n; i++) {
       if (!ev[i].done) xmc::fail("ENGINE", "pending operation in final history");
       for (int j = 0; j < n; j++)
-        if (i != j && xmc::precedes(ev[j], ev[i])) pred[i] |= 1u << j;
+        if (i != j && xmc::precedes(ev[j], ev[i])) pred[i] |= uint64_t(1) << j;
     }
     // specs that grant slack per overlapping operation read the count from Event::res_vc[MAXT-1] (unused slot)
     for (int i = 0; i < n; i++) {
